@@ -44,8 +44,10 @@ def digest(results):
 def schedules(r, k):
     """The canonical schedule first, then perturbed ones."""
     ident = list(range(k))
-    out = [{"start_order": ident, "finish_order": ident, "worker_of": ident, "name": "canonical"}]
+    out = [{"start_order": ident, "finish_order": ident, "worker_of": ident, "name": "canonical", "ambient": {"offset": 0.0, "step": 0.001, "cwd": "a"}}]
     if k == 1:
+        out.append({"start_order": ident, "finish_order": ident, "worker_of": ident, "name": "other_surroundings",
+                    "ambient": {"offset": 1.7e9, "step": 0.37, "cwd": "b", "env": {"TZ": "Pacific/Kiritimati", "LANG": "tr_TR.UTF-8", "PHYCLONE_SIM": "1"}}})
         return out
     rev = ident[::-1]
     out.append({"start_order": rev, "finish_order": ident, "worker_of": ident, "name": "start_reversed"})
@@ -56,6 +58,8 @@ def schedules(r, k):
     r.shuffle(p2)
     out.append({"start_order": p1, "finish_order": p2, "worker_of": [r.randrange(max(1, k - 1)) for _ in range(k)], "name": "seeded"})
     out.append({"start_order": rev, "finish_order": p2, "worker_of": [0] * k, "name": "reversed_on_one_worker"})
+    out.append({"start_order": ident, "finish_order": ident, "worker_of": ident, "name": "other_surroundings",
+                "ambient": {"offset": 1.7e9, "step": 0.37, "cwd": "b", "env": {"TZ": "Pacific/Kiritimati", "LANG": "tr_TR.UTF-8", "PHYCLONE_SIM": "1"}}})
     out.append({"start_order": ident, "finish_order": ident, "worker_of": [0] * k, "name": "one_core", "cores": 1})
     out.append({"start_order": p1, "finish_order": ident, "worker_of": [i % 2 for i in range(k)], "name": "two_cores", "cores": 2})
     return out
@@ -101,6 +105,10 @@ def task(seed):
     for sch in schedules(r, k):
         s = dict(spec)
         s["schedule"] = sch
+        if sch.get("ambient"):
+            s["ambient"] = sch["ambient"]
+            if sch["name"] != "canonical":
+                fired["ambient.clock_cwd_env"] = fired.get("ambient.clock_cwd_env", 0) + 1
         if sch.get("cores"):
             s["cores"] = sch["cores"]
             fired["sched.cores"] = fired.get("sched.cores", 0) + 1
@@ -255,7 +263,7 @@ def run(ctx):
     ctx.cov["distinct_nontrivial"] = len(sig) if len(sig) >= 2 else len(refs)
     ctx.cov["option_sets"] = len(seeds)
     ctx.cov["rule"] = ("per seeded option set (1-4 chains, 2-8 iterations, all proposals, outliers on/off, concentration update on/off): canonical execution "
-                       "+ 7 perturbed schedules (start reversed, finish reversed, all chains on one simulated worker with warm memo caches, the OS reporting 1 or 2 available cores, seeded "
+                       "+ 7 perturbed schedules (start reversed, finish reversed, all chains on one simulated worker with warm memo caches, the OS reporting 1 or 2 available cores, another wall clock / working directory / environment, seeded "
                        "orders and worker assignment) + executions in fresh interpreters under other PYTHONHASHSEED values; one evaluation = one "
                        "simulated execution; per chain the sequence of (canonical tree, labels, alpha, iter) must be identical and log_p_one equal "
                        "to 1e-9 relative; distinct = distinct (chains, entries per chain) shapes")
